@@ -32,12 +32,13 @@ def one(p,res):
         print(name,'BUILD/TEST FAILS — not a valid benign patch:',(b.stdout+b.stderr)[-200:]); shutil.rmtree(d); return
     res['tot']+=1
     alarms={}
-    for pr in ALL:
-        vd=tempfile.mkdtemp(prefix='/tmp/benverif.'); os.mkdir(vd+'/evidence'); shutil.copy('/verif/known_findings.json',vd)
-        o=subprocess.run(['/verif/bin/hlint','-property',pr,'-repo',d,'-verif',vd],capture_output=True,text=True).stdout
-        h=[l for l in o.splitlines() if l.startswith(('VIOLATED','UNDECIDED'))]
-        if h: alarms[pr]=h
-        shutil.rmtree(vd)
+    vd=tempfile.mkdtemp(prefix='/tmp/benverif.'); os.mkdir(vd+'/evidence'); shutil.copy('/verif/known_findings.json',vd)
+    o=subprocess.run(['/verif/bin/hlint','-property','all','-repo',d,'-verif',vd],capture_output=True,text=True).stdout
+    cur=None
+    for l in o.splitlines():
+        if l.startswith('property C'): cur=l.split()[1]
+        elif l.startswith(('VIOLATED','UNDECIDED')): alarms.setdefault(cur,[]).append(l)
+    shutil.rmtree(vd)
     shutil.rmtree(d)
     if alarms:
         res['fa']+=1
@@ -46,7 +47,7 @@ def one(p,res):
         for pr,h in alarms.items():
             for l in h:
                 k=l.replace('shared ','')[:140]
-                if k in seen: return
+                if k in seen: continue
                 seen.add(k); print('     ',l[:300])
     else:
         print('%s: silent'%name)
